@@ -215,13 +215,82 @@ theorem error_leaves_heap_unchanged (h : Heap) (op : Op) (m : String) (he : (h.s
         · rfl
     · rfl
     · rfl
+  | load y a i => simp only [Heap.step]
+  | swap x i j => simp only [Heap.step]
+
+/-- the same for the two value-binding statements (`y = a[i]`, `a[i], a[j] = a[j], a[i]`) -/
+theorem error_leaves_heap_unchanged2 (h : Heap) (op : Op) (m : String) (he : (h.step2 op).2 = .err m) :
+    (h.step2 op).1 = h := by
+  cases op with
+  | load y a i =>
+    simp only [Heap.step2] at he ⊢
+    cases ha : h.arg a with
+    | none => rfl
+    | some item =>
+      cases hi : h.arg i with
+      | none => rfl
+      | some idx =>
+        simp only [ha, hi] at he ⊢
+        cases hx : h.index item idx with
+        | err m' => rfl
+        | ok v => simp only [hx] at he; cases he
+  | swap x i j =>
+    simp only [Heap.step2] at he ⊢
+    cases hx : h.getVar x with
+    | none => rfl
+    | some item =>
+      cases hi : h.arg i with
+      | none => cases item <;> rfl
+      | some ii =>
+        cases hj : h.arg j with
+        | none => cases item <;> rfl
+        | some jj =>
+          cases item with
+          | slice s =>
+            simp only [hx, hi, hj] at he ⊢
+            cases h1 : h.index (.slice s) jj with
+            | err m' => rfl
+            | ok vj =>
+              cases h2 : h.index (.slice s) ii with
+              | err m' => rfl
+              | ok vi =>
+                simp only [h1, h2] at he ⊢
+                split
+                · next hk1 hk2 => simp only [hk1, hk2] at he; cases he
+                · rfl
+          | nil => rfl
+          | int _ => rfl
+          | bool _ => rfl
+          | str _ => rfl
+          | map _ => rfl
+  | list x as => exact error_leaves_heap_unchanged h _ m he
+  | mapLit x kvs => exact error_leaves_heap_unchanged h _ m he
+  | copy y a => exact error_leaves_heap_unchanged h _ m he
+  | index a i => exact error_leaves_heap_unchanged h _ m he
+  | slice y a b e c => exact error_leaves_heap_unchanged h _ m he
+  | setIndex x i v nc => exact error_leaves_heap_unchanged h _ m he
+  | append y a v nc => exact error_leaves_heap_unchanged h _ m he
+  | len a => exact error_leaves_heap_unchanged h _ m he
+  | delete a k => exact error_leaves_heap_unchanged h _ m he
+
+/-- A value read from a slice and bound to a variable is a VALUE: later stores into the slice do
+not change the variable (the binding holds what was read, not a view of the slot). -/
+theorem bound_values_are_not_views (h : Heap) (y : String) (s : Slice) (k : Nat) (u : V) :
+    (h.writeElem s k u).getVar y = h.getVar y := by
+  unfold Heap.writeElem
+  split <;> rfl
+
+/-- ... and a successful `y = a[i]` binds exactly the element read. -/
+theorem load_binds_element (h : Heap) (y : String) (x : String) (s : Slice) (i : Nat) (hx : h.getVar x = some (.slice s)) (hi : i < s.len) :
+    (h.step2 (.load y (.var x) (.lit (.int i)))).2 = .ok (h.elem s i) := by
+  simp only [Heap.step2, Heap.arg, hx, index_in_range h s i hi]
 
 /-- ... hence along any history: the statements that failed can be dropped without changing the
 final contents. -/
-theorem failed_statements_are_noops (h : Heap) (op : Op) (ops : List Op) (m : String) (he : (h.step op).2 = .err m) :
+theorem failed_statements_are_noops (h : Heap) (op : Op) (ops : List Op) (m : String) (he : (h.step2 op).2 = .err m) :
     (h.run (op :: ops)).1 = (h.run ops).1 := by
   simp only [Heap.run]
-  rw [error_leaves_heap_unchanged h op m he]
+  rw [error_leaves_heap_unchanged2 h op m he]
 
 /-- An unhashable key is an error when written or deleted. -/
 theorem map_write_unhashable (h : Heap) (x : String) (id : Nat) (k v : V) (nc : Nat)
